@@ -181,8 +181,8 @@ ASMJIT_FAVOR_SIZE Error init_call_conv(CallConv& cc, CallConvId call_conv_id, co
         cc.set_flags(CallConvFlags::kPassFloatsByVec |
                     CallConvFlags::kPassMmxByGp     );
         cc.set_natural_stack_alignment(16);
-        // Maximum 6 arguments in registers, each adds 8 bytes to the spill zone.
-        cc.set_spill_zone_size(6 * 8);
+        // The home area is the same as in the x64 convention - four 8-byte slots.
+        cc.set_spill_zone_size(4 * 8);
         cc.set_passed_order(RegGroup::kGp, kZcx, kZdx, 8, 9);
         cc.set_passed_order(RegGroup::kVec, 0, 1, 2, 3, 4, 5);
         cc.set_preserved_regs(RegGroup::kGp, Support::bit_mask<RegMask>(kZbx, kZsp, kZbp, kZsi, kZdi, 12, 13, 14, 15));
@@ -449,6 +449,10 @@ ASMJIT_FAVOR_SIZE Error init_func_detail(FuncDetail& func, const FuncSignature& 
           TypeId type_id = arg.type_id();
           uint32_t size = TypeUtils::size_of(type_id);
 
+          // Every argument owns the 8-byte home slot given by its position (the first four form the home area), so
+          // an argument that is not passed in a register is found at `arg_index * 8`.
+          stack_offset = arg_index * 8u;
+
           if (TypeUtils::is_int(type_id) || TypeUtils::is_mmx(type_id)) {
             uint32_t reg_id = Reg::kIdBad;
 
@@ -463,7 +467,6 @@ ASMJIT_FAVOR_SIZE Error init_func_detail(FuncDetail& func, const FuncSignature& 
             }
             else {
               arg.assign_stack_offset(int32_t(stack_offset));
-              stack_offset += 8;
             }
             continue;
           }
@@ -507,12 +510,13 @@ ASMJIT_FAVOR_SIZE Error init_func_detail(FuncDetail& func, const FuncSignature& 
               arg.add_flags(FuncValue::kFlagIsIndirect);
             }
 
-            // Always 8 bytes (float/double/pointer).
-            stack_offset += 8;
             continue;
           }
         }
       }
+
+      // The caller always provides the home area of the first four arguments.
+      stack_offset = Support::max<uint32_t>(arg_count, 4u) * 8u;
       break;
     }
   }
